@@ -14,12 +14,15 @@ PROP = "C19"
 def check_file(ctl, name, content, F, st):
     P = ctl.P
     stale = pc.stale_for(name, content, P)
-    ctl.put(content, stale)
+    closed, link = pc.variant_for(name)
+    ctl.put(content, stale, link)
+    st["closed_fds"] = st.get("closed_fds", 0) + (closed is not None)
+    st["symlinked"] = st.get("symlinked", 0) + (link is not None and content is not None)
     st["stale_tmp"] = st.get("stale_tmp", 0) + (stale is not None)
-    rc, out, err = ctl.run("disable")
+    rc, out, err = ctl.run("disable", closed)
     new = ctl.get()
     st["runs"] += 1
-    wit = dict(file=name, stale_tmp=None if stale is None else stale.decode("latin-1"), content=None if content is None else content.decode("latin-1"), rc=rc,
+    wit = dict(file=name, started_without_fds=closed, symlink=link, stale_tmp=None if stale is None else stale.decode("latin-1"), content=None if content is None else content.decode("latin-1"), rc=rc,
                result=None if new is None else new.decode("latin-1"), stderr=err.decode("latin-1")[-300:])
     bad = pc.disable_check(content, new, rc, P)
     if bad:
